@@ -44,6 +44,7 @@ PROPERTIES = {
     },
     "C06": {
         "units": ["bar_draw", "c07_position", "pins_bar", "c16_tabs", "pins_multi"],
+        "state_equivalence_units": ["c07_position", "c16_tabs", "pb_glue"],
         "level": "proof",
         "explanation": "Every draw-path function carries the frame clause 'hidden target => the count of terminal operations is unchanged' (ProgressDrawTarget::drawable returns None for Hidden and for a Term that is not a TTY; a member of a hidden MultiProgress goes through the MultiHandle whose contract keeps the count), and the logical-state postconditions (position, length, message, prefix, finished status) never mention the target, so they are the same for hidden and visible bars.",
         "level_text": "Deductive proof (Verus): silence as a frame condition on every function of the draw path, state equivalence by construction of the contracts.",
